@@ -37,16 +37,20 @@ def run(cmd, cwd=None, env=None, input=None, timeout=None):
 
 def translate(units):
     """returns (ok, statuses)"""
-    if not units:
-        return True, []
-    rc, out = run([sys.executable, os.path.join(VERIF, 'translator', 'extract.py'), '--repo', REPO] + list(units))
+    # every unit is regenerated on every run (Gen/ always reflects /repo's working tree); only the
+    # statuses of the units this property depends on are reported as its translator tie
+    rc, out = run([sys.executable, os.path.join(VERIF, 'translator', 'extract.py'), '--repo', REPO])
     st = []
     for line in out.splitlines():
         try:
             st.append(json.loads(line))
         except Exception:
             st.append({'unit': '?', 'ok': False, 'reason': line})
-    ok = rc == 0 and all(s.get('ok') for s in st)
+    if units is not None and units != []:
+        st = [x for x in st if x.get('unit') in units or x.get('unit') == '?']
+    elif units == []:
+        st = []
+    ok = all(s.get('ok') for s in st)
     return ok, st
 
 def lake_build(targets):
@@ -264,7 +268,7 @@ def main(argv):
 def setup():
     t0 = time.time()
     with Lock():
-        ok, st = translate([])
+        ok, st = translate(None)
         print('translator:', 'ok' if ok else st)
         ok2, out = lake_build(['TracingModel', 'tmdriver', 'TracingModel.AuditLib'])
         print('lake build:', 'ok' if ok2 else out[-3000:])
@@ -375,7 +379,7 @@ def run_check(pid, mod, tier, seed, replay):
             verdicts, err = driver(pid, st.judge, [c + ' => ' + o for c, o in zip(cases, impl)])
             if err:
                 res.errors.append('%s: driver(%s): %s' % (st.name, st.judge, err)); continue
-        if st.bulk and impl == model and (spec is None or spec == impl) and (verdicts is None or all(v == 'ok' for v in verdicts)):
+        if st.bulk and impl == model and (spec is None or (spec == impl and not getattr(st, 'spec_match', None))) and (verdicts is None or all(v == 'ok' for v in verdicts)):
             res.evaluations += len(cases)
             nt = set(c for c, a in zip(cases, impl) if st.nontrivial(c, a))
             res.nontrivial.update(st.name + ' ' + c for c in nt)
@@ -396,7 +400,7 @@ def run_check(pid, mod, tier, seed, replay):
             else:
                 res.hist[st.name] = res.hist.get(st.name, 0) + 1
             why = None
-            if spec is not None and st.canon(spec[idx]) != a2:
+            if spec is not None and not (st.spec_match(st.canon(spec[idx]), a2) if getattr(st, 'spec_match', None) else st.canon(spec[idx]) == a2):
                 why = 'spec ' + st.canon(spec[idx])
             if verdicts is not None and verdicts[idx] != 'ok':
                 why = 'judge ' + verdicts[idx]
